@@ -7,14 +7,14 @@ marks and right-to-left text.
 import common, gen
 from common import pmap, rng, build
 
-EXCMDS = ['s/./x/', 's/.$//', 's/^.//', 's/x*/-/g', 's/[^a]/_/g', 's/\\(/(/', 's/é/e/g', 's/./&&/g', 's/(.)(.)/\\2\\1/g', 's/.\\>//', 's/\\<./X/g', '1,$s/..$/é/', 'g/./s/.//', '%s/$/é/', 'd', 'y|pu']
+EXCMDS = ['s/é*/X/', 's/é+/X/g', 's/ï?v/Y/', 's/中{2}/Z/', 's/aé*/X/', 's/ü*n/N/g', 's/[é]*t/T/', 's/./x/', 's/.$//', 's/^.//', 's/x*/-/g', 's/[^a]/_/g', 's/\\(/(/', 's/é/e/g', 's/./&&/g', 's/(.)(.)/\\2\\1/g', 's/.\\>//', 's/\\<./X/g', '1,$s/..$/é/', 'g/./s/.//', '%s/$/é/', 'd', 'y|pu']
 
 
 def run_case(args):
     vi, idx = args
     R = rng('c16e', idx)
     lines = gen.rand_buffer(R, 'mixed', 8, allow_empty=False)
-    keys = ''
+    keys = R.choice(['', '', ':se noic\n'])
     for _ in range(R.randint(2, 12)):
         k = R.random()
         if k < 0.25:
